@@ -107,7 +107,7 @@ def armTags (w w' : World) : List String :=
       if b.st = .running ∧ (a.st ≠ .running ∨ a.target ≠ b.target ∨ a.timer ≠ b.timer) then
         let r := remainSeconds b w'.env
         [if r > far then "arm-far" else if r > 86400 then "arm-days" else "arm-near"]
-        ++ (if b.early ∧ !a.early then ["arm-before-last-served"] else [])
+        ++ (if w'.env.sec < b.lastServed then ["arm-while-wall-behind-last-served"] else [])
       else if a.st = .running ∧ b.st ≠ .running then ["disarmed"] else []
     | (some _, none) => ["destroyed"]
     | _ => [])
